@@ -87,6 +87,33 @@ func (s *wire6) Plan(w *World) {
 			w.Chain6 = append(w.Chain6, PluginConf{"prefix", []string{"2001:db8:1::/48", "56"}})
 			w.Chain4 = append(w.Chain4, PluginConf{"netmask", []string{"255.255.255.0"}})
 		}
+		if t.Draw(2) == 0 {
+			// the identifier has to survive whatever else is configured: any subset of the other option plugins around it,
+			// server_id at a drawn position but ahead of the plugins that may end the chain (nbp always does, ipv6only
+			// for clients that opt in): what an earlier plugin sends without consulting server_id is not server_id's doing
+			o4 := subsetOrder(t, []PluginConf{{"dns", []string{"10.0.0.2"}}, {"router", []string{"10.0.0.254"}}, {"lease_time", []string{"90s"}},
+				{"mtu", []string{"1400"}}, {"searchdomains", []string{"a.example"}}, {"staticroute", []string{"10.9.0.0/16,10.0.0.254"}},
+				{"ipv6only", []string{"300s"}}, {"autoconfigure", []string{"1"}},
+				{"nbp", []string{[]string{"tftp://192.0.2.200/pxelinux.0", "tftp://boot.example/pxelinux.0", "http://192.0.2.200/boot.efi"}[t.Pick(3)]}}})
+			o6 := subsetOrder(t, []PluginConf{{"searchdomains", []string{"a.example"}}, {"nbp", []string{"http://[2001:db8::9]/b.efi"}}, {"sleep", []string{"1ms"}}})
+			p4, p6 := t.Pick(len(o4)+1), t.Pick(len(o6)+1)
+			stopsLast := func(l []PluginConf, p int) ([]PluginConf, int) {
+				var head, tail []PluginConf
+				for i, c := range l {
+					if i < p && (c.Name == "nbp" || c.Name == "ipv6only") {
+						tail = append(tail, c)
+					} else if i < p {
+						head = append(head, c)
+					}
+				}
+				return append(append(append([]PluginConf{}, head...), l[p:]...), tail...), len(head)
+			}
+			o4, p4 = stopsLast(o4, p4)
+			o6, p6 = stopsLast(o6, p6)
+			w.Chain4 = append(append(append([]PluginConf{}, o4[:p4]...), w.Chain4...), o4[p4:]...)
+			w.Chain6 = append(append(append([]PluginConf{}, o6[:p6]...), w.Chain6...), o6[p6:]...)
+			w.Probe("serverid.among_other_plugins")
+		}
 	} else {
 		switch t.Draw(5) {
 		case 0:
